@@ -146,3 +146,15 @@ Theorem C05_loaded_container_invariants : forall E o c envv id,
   defs_le (load E o c envv) /\ serial_inv (load E o c envv) /\ ctx_inv id (load E o c envv).
 Proof. intros. destruct (load_serial_inv E o c envv) as [A B]. split; [exact A|]. split; [exact B|]. apply ctx_inv_load. Qed.
 Print Assumptions C05_loaded_container_invariants.
+
+(** ---- end to end (Proofs/E2EProofs.v): the scope the run-time model works with is the declared one (the default when none is declared),
+    placeholders included ---- *)
+From GV Require Import Base.Str Base.Sort Model.Env Model.Input Model.Merge Model.Imports Model.Compile Model.Runner Runtime.RT Runtime.Load Proofs.RefsProofs Proofs.E2EProofs.
+From Coq Require Import List ZArith.
+Import ListNotations.
+Theorem C05_loaded_scope_is_the_declared_one : forall (E : env),
+  w_compiler_steps E = [CValidate; CMeta; CParams; CServices; CDecorators] ->
+  forall B i o c envv k, compile E B i = ((o, None), c) ->
+  declared_scope (load E o c envv) k = match lookup k (i_services i) with Some d => oscope_of (sv_scope d) | None => OScDefault end.
+Proof. exact e2e_scope. Qed.
+Print Assumptions C05_loaded_scope_is_the_declared_one.
